@@ -31,10 +31,11 @@ def run(ctx: Ctx):
 def scaling(ctx: Ctx):
     for cname, se in (("_Slice", "self.population_std_err"), ("_Strand", "self.population_proportion_stderrs")):
         ci = ctx.repo.cls("cubepart.py", cname)
-        e = expand(ctx.repo, ci, "population_counts", stop=lambda m: True)
+        keep = lambda m: m.name != "population_fraction"  # the partition's own alias of the cube's fraction is followed
+        e = expand(ctx.repo, ci, "population_counts", stop=keep)
         v, cnf, snf, _ = equal(e, "self.population_proportions * self._population * self._cube.population_fraction")
         ctx.ob("scaling", f"cubepart.py::{cname}.population_counts", cnf, snf, v, "population estimate = population proportion x population x filtered fraction")
-        e = expand(ctx.repo, ci, "population_counts_moe", stop=lambda m: True)
+        e = expand(ctx.repo, ci, "population_counts_moe", stop=keep)
         v, cnf, snf, _ = equal(e, f"Z_975 * self._population * self._cube.population_fraction * {se}")
         ctx.ob("scaling", f"cubepart.py::{cname}.population_counts_moe", cnf, snf, v, "MoE = 1.959964 x population x fraction x matching standard error")
     sl = ctx.repo.cls("cubepart.py", "_Slice")
@@ -90,21 +91,35 @@ def selection(ctx: Ctx):
 def diffs(ctx: Ctx):
     for cname, asm in (("_Slice", "_assemble_matrix"), ("_Strand", "_assemble_vector")):
         ci = ctx.repo.cls("cubepart.py", cname)
-        m = ctx.repo.lookup(ci, "population_proportions")
-        stores = []
-        source_fresh = False
-        for n in ast.walk(m.node):
-            if isinstance(n, ast.Assign) and isinstance(n.targets[0], ast.Name) and n.targets[0].id == "population_proportions":
-                source_fresh = isinstance(n.value, ast.Call) and u(n.value.func) == f"self.{asm}" and u(n.value.args[0]) == "self._measures.population_proportions.blocks"
-            if isinstance(n, ast.Assign) and isinstance(n.targets[0], ast.Subscript) and u(n.targets[0].value) == "population_proportions":
-                stores.append((u(n.targets[0].slice), u(n.value)))
-        want = [("(self.diff_row_idxs, slice(None, None, None))", "np.nan"), ("(slice(None, None, None), self.diff_column_idxs)", "np.nan")] if cname == "_Slice" else [("self.diff_row_idxs", "np.nan")]
-        got = [(s.replace("self.diff_row_idxs, :", "self.diff_row_idxs, :"), v) for s, v in stores]
-        norm = lambda s: s.replace(" ", "")
-        want_txt = [("self.diff_row_idxs,:", "np.nan"), (":,self.diff_column_idxs", "np.nan")] if cname == "_Slice" else [("self.diff_row_idxs", "np.nan")]
-        norm = lambda s: s.replace(" ", "").strip("()")
-        ok = source_fresh and [(norm(s), v) for s, v in stores] == want_txt
-        ctx.ob("diff-nan", f"cubepart.py::{cname}.population_proportions", f"fresh={source_fresh} stores={stores}", f"assembled (fresh) array; NaN at {want_txt}", ok, "subtotal differences are NaN in every population measure; the overwrite happens on the freshly assembled array")
+        from ..stmts import reachable_functions, resolver
+
+        fns = reachable_functions(ctx.repo, ci, "population_proportions")
+        where = f"cubepart.py::{cname}.population_proportions"
+        found = {"rows": None, "columns": None}
+        wrong = []
+        n_nan_stores = 0
+        for fn in fns:
+            res = resolver(fn)
+            for n in ast.walk(fn):
+                if isinstance(n, ast.Assign) and isinstance(n.targets[0], ast.Subscript) and u(n.value) in ("np.nan", "float('nan')", "np.NaN"):
+                    n_nan_stores += 1
+                    sl = n.targets[0].slice
+                    parts = list(sl.elts) if isinstance(sl, ast.Tuple) else [sl]
+                    texts = [[u(v) for v in res(p)] for p in parts]
+                    for axis, part_texts in enumerate(texts):
+                        for which, attr in (("rows", "self.diff_row_idxs"), ("columns", "self.diff_column_idxs")):
+                            if attr in part_texts:
+                                right_axis = (axis == 0) if which == "rows" else (axis == 1 and len(parts) == 2)
+                                if right_axis:
+                                    found[which] = True
+                                else:
+                                    wrong.append(f"{attr} used on axis {axis}")
+        need = ["rows", "columns"] if cname == "_Slice" else ["rows"]
+        if wrong:
+            ctx.violated("diff-nan", where, wrong, "difference rows on axis 0, difference columns on axis 1", "subtotal differences are NaN in every population measure")
+        else:
+            ok = True if all(found[k] for k in need) else None
+            ctx.ob("diff-nan", where, f"{n_nan_stores} NaN stores; difference {[k for k in need if found[k]]} blanked", f"NaN at the difference {need} of the assembled array", ok, "subtotal differences are NaN in every population measure (freshness of the overwritten array: C18 write inventory)")
 
 
 # --------------------------------------------------------------------------- fraction cascade
